@@ -214,7 +214,10 @@ GIT_RULE = ("Git layer (a quarter of the cases): 2-3 workspaces at different pat
             "workspace i with/without --upload and a generated download mode. The build script copies the source file, "
             "so after every successful build the result of every package must equal the content of that workspace's own "
             "source file (if the sources were never checked out because the Build-Id was predicted from the live "
-            "build-id: the content a fresh checkout would have had). Non-trivial there: a build whose checkout was "
+            "build-id: the content a fresh checkout would have had). The requested package r0 is judged after every "
+            "build; the dependency lib only when this invocation cooked its package step (Bob's log names its dist "
+            "workspace) - when r0 itself is downloaded Bob does not visit lib, and what an earlier build left in "
+            "that directory is not a result of this build. Non-trivial there: a build whose checkout was "
             "predicted and whose artifact was downloaded after an uploader had worked with modified sources or the "
             "branch had moved.")
 
@@ -300,6 +303,12 @@ def run_git_case(ctx, case, confirm=False):
                     res = os.path.join(ws, "dev", "dist", pkg, "1", "workspace", "result.txt")
                     if not os.path.exists(res):
                         continue        # dependencies of a downloaded package need not be materialised
+                    if pkg != "r0" and not _visited(r.out, pkg):
+                        # ... nor refreshed: Bob does not cook the dependencies of a package it downloads
+                        # (_cookStep), so what an earlier invocation left there is not a result of this build.
+                        # The requested package r0 is always judged and embeds what it consumed from lib.
+                        labels.append("git-unvisited-dependency-not-judged")
+                        continue
                     got = open(res).read()
                     if got != pre + expect:
                         ctx.fail("git:foreign-or-stale-artifact", "history %r: package %s holds %r but the sources of this workspace "
@@ -307,6 +316,12 @@ def run_git_case(ctx, case, confirm=False):
         ctx.record(jhash(case), nontrivial, labels, {"git-history": hist, "pin": pin[0]})
     finally:
         vlib.rmtree(base)
+
+def _visited(out, pkg):
+    """did this invocation cook the package step of pkg?  Every outcome of a cooked package step is reported with its
+    dist workspace at the default verbosity: PACKAGE <dir>, PACKAGE skipped (unchanged input for|already downloaded
+    in <dir>), DOWNLOAD <dir>, PRUNE <dir> (pym/bob/builder.py _downloadPackage/_cookPackageStep)"""
+    return ("dev/dist/%s/1/workspace" % pkg) in out
 
 def _dirty_or_diverged(srcdir, home, srcuni):
     rc, out, _ = srcuni.git(srcdir, ["status", "--porcelain"], home)
